@@ -153,6 +153,9 @@ pub struct GenCfg {
     /// the program hands the resolve function of one of its promises to the host (in an order
     /// payload); the host settles the promise later by CALLING that function
     pub f_host_resolver: bool,
+    /// the program imports the harness library `lib:util` (an InternalModule::source registered on
+    /// every simulated interpreter) and calls into it
+    pub f_lib: bool,
 }
 
 impl GenCfg {
@@ -189,6 +192,7 @@ impl GenCfg {
             f_batch_unawaited: false,
             f_long_names: on(0.15),
             f_host_resolver: on(0.5),
+            f_lib: on(0.3),
         }
     }
 }
@@ -1250,6 +1254,17 @@ impl<'a> Gen<'a> {
     }
 
     fn log_stmt(&mut self) -> Node {
+        if self.cfg.f_lib && self.rng.chance(0.4) {
+            self.tag("lib-call");
+            let n = self.sync_num(0);
+            // (the library's mutator `bumpLib` is not called: module state outlives a run on purpose,
+            // and checks that reuse an interpreter compare against a fresh one)
+            return Node::leaf(match self.rng.below(3) {
+                0 => format!("__log.push(\"lib:\" + __kinds({n}) + __kinds(undefined) + __kinds([{n}]));"),
+                1 => format!("__log.push(\"lib:\" + JSON.stringify(__mk({n})) + __util.name + __useed.list.length + typeof __ubump);"),
+                _ => "__log.push(\"lib:\" + __probe());".to_string(),
+            });
+        }
         let e = match self.rng.below(4) {
             0 => self.str_(2),
             1 => format!("String({})", self.num(2)),
@@ -1927,7 +1942,8 @@ impl<'a> Gen<'a> {
             Node::block(format!("async function {p}main(): Promise<any> {{"), body, "}")
         };
         let mut kids = Vec::new();
-        kids.push(Node::leaf(hole_prelude(variant, &self.answers)));
+        let lib_import = if self.cfg.f_lib { "import __util, { probe as __probe, kinds as __kinds, mk as __mk, seed as __useed, bumpLib as __ubump } from \"lib:util\";\n" } else { "" };
+        kids.push(Node::leaf(format!("{}{}", lib_import, hole_prelude(variant, &self.answers))));
         kids.push(Node::leaf(
             "const __log: string[] = [];\nconst __tag = (s: any, ...v: any[]): string => s.join(\"_\") + \":\" + v.map((x: any) => String(x)).join(\",\") + \":\" + s.raw.length;",
         ));
@@ -2061,7 +2077,14 @@ pub fn render(root: &Node) -> String {
 pub fn rebind(root: &Node, variant: HoleVariant, answers: &BTreeMap<String, Answer>) -> Node {
     let mut r = root.clone();
     if let Some(first) = r.kids.first_mut() {
-        first.pre = hole_prelude(variant, answers);
+        // keep import lines that are not part of the hole prelude (lib:util, dependencies)
+        let keep: Vec<&str> = first.pre.lines().filter(|l| l.trim_start().starts_with("import ") && !l.contains("tsrun:host")).collect();
+        let mut pre = keep.join("\n");
+        if !pre.is_empty() {
+            pre.push('\n');
+        }
+        pre.push_str(&hole_prelude(variant, answers));
+        first.pre = pre;
     }
     r
 }
